@@ -91,7 +91,7 @@ Proof.
   - cbn [f4_loop] in E.
     destruct (nth_error ms (start_ix s)); [|discriminate]. destruct (nth_error ms (end_ix s)); [|discriminate].
     cbn [obind] in E. destruct (id_delta s).
-    + destruct (delta_i16 z); [|discriminate]. cbn [obind] in E.
+    + cbn zeta in E.
       destruct (f4_loop ms nseg (S i) n tl) as [[r g]|] eqn:Er; [|discriminate].
       cbn [obind fst snd] in E. inversion E; subst. cbn [length]. f_equal. eapply IH; eauto.
     + destruct (Nat.ltb nseg i); [discriminate|].
@@ -223,27 +223,9 @@ Theorem segments_partition_lemma sorted :
   exists segs, compute_segments sorted = Some segs /\ segs_cover segs 0 (bmp_prefix sorted).
 Proof. destruct (compute_segments_cover sorted) as (segs & H1 & H2 & _). eauto. Qed.
 
-Theorem delta_mod_65536_lemma d d16 : delta_i16 d = Some d16 ->
-  -32768 <= d16 < 32768 /\ (d16 - d) mod 65536 = 0.
+(* total since the fix of F-2: never panics, always the i16 congruent to gid - cp *)
+Theorem delta_mod_65536_lemma d : -32768 <= delta_i16 d < 32768 /\ (delta_i16 d - d) mod 65536 = 0.
 Proof. apply delta_i16_spec. Qed.
-
-(* the conversion panics exactly on [32768, 65535] (for gid - cp of 16-bit operands) *)
-Theorem delta_panics_iff_lemma d : -65536 < d < 65536 -> (delta_i16 d = None <-> 32768 <= d <= 65535).
-Proof.
-  intros Hd. unfold delta_i16, chk_s, in_s. change (- 2 ^ (16 - 1)) with (-32768). change (2 ^ (16 - 1)) with 32768.
-  destruct (Z_lt_le_dec d (-32768)) as [HA|HA]; [|destruct (Z_lt_le_dec d 32768) as [HB|HB]].
-  - assert (E1 : (-32768 <=? d) = false) by (apply Z.leb_gt; lia). rewrite E1. cbn [andb].
-    assert (Em : d mod 65536 = d + 65536) by (symmetry; apply Z.mod_unique with (q := -1); lia). rewrite Em.
-    assert (E2 : (-32768 <=? d + 65536) = true) by (apply Z.leb_le; lia).
-    assert (E3 : (d + 65536 <? 32768) = true) by (apply Z.ltb_lt; lia). rewrite E2, E3. cbn [andb].
-    split; [discriminate | lia].
-  - assert (E1 : (-32768 <=? d) = true) by (apply Z.leb_le; lia).
-    assert (E2 : (d <? 32768) = true) by (apply Z.ltb_lt; lia). rewrite E1, E2. cbn [andb].
-    split; [discriminate | lia].
-  - assert (E1 : (d <? 32768) = false) by (apply Z.ltb_ge; lia). rewrite E1, andb_false_r.
-    assert (Em : d mod 65536 = d) by (apply Z.mod_small; lia). rewrite Em. rewrite E1, andb_false_r.
-    split; [lia | reflexivity].
-Qed.
 
 (* ---------- which subtables are emitted ---------- *)
 Theorem subtable_choice_lemma input o4 o12 : valid_input input -> from_mappings input = Built o4 o12 ->
@@ -334,15 +316,6 @@ Proof.
         apply (proj2 (asc_assoc _ Ha c g)). apply (proj2 (canon_in _ _)). exact Eg.
 Qed.
 
-(* ---------- the unchanged builder panics on a valid mapping (finding F-2) ---------- *)
-Theorem format4_build_refuted_lemma : exists input, valid_input input /\ conflict_free input /\ from_mappings input = Panic.
-Proof.
-  exists [(65, 40000)]. split; [|split].
-  - constructor; [|constructor]. unfold valid. cbn. lia.
-  - intros c g1 g2 [H1|[]] [H2|[]]. congruence.
-  - vm_compute. reflexivity.
-Qed.
-
 (* ---------- skrifa Charmap over the emitted records ---------- *)
 
 Lemma assoc_valid_nonzero input c g : valid_input input -> assoc c (canon input) = Some g -> (g =? 0) = false.
@@ -386,7 +359,7 @@ Qed.
 
 
 Lemma cmap12_iter_from_limits gs ng : forall pe pg, gwf pe pg gs ->
-  (forall a, In a gs -> g_end a < 1114111 /\ g_gid a + (g_end a - g_start a) < ng) ->
+  (forall a, In a gs -> g_end a <= 1114111 /\ g_gid a + (g_end a - g_start a) < ng) ->
   forall cur_end, cur_end <= pe + 1 -> cmap12_iter_from (Some (1114111, ng)) cur_end gs = expand gs.
 Proof.
   induction gs as [|[[s e] g] t IH]; intros pe pg H Hb cur_end Hce; [reflexivity|].
@@ -395,7 +368,7 @@ Proof.
   destruct (Hb (s, e, g) (or_introl eq_refl)) as [Hb1 Hb2]. unfold g_start, g_end, g_gid in Hb1, Hb2. cbn [fst snd] in Hb1, Hb2.
   cbn [cmap12_iter_from]. unfold cmap12_group_end.
   destruct (Z.ltb_spec s cur_end); [lia|].
-  replace (Z.min (Z.max 0 (ng - g) + s) (Z.min (e + 1) 1114111)) with (e + 1) by lia.
+  replace (Z.min (Z.max 0 (ng - g) + s) (Z.min (e + 1) (1114111 + 1))) with (e + 1) by lia.
   change (expand ((s, e, g) :: t)) with (run s e g ++ expand t).
   f_equal.
   - unfold run. apply map_ext_in. intros x Hx. apply zrange_in in Hx.
@@ -410,9 +383,9 @@ Proof.
 Qed.
 
 (* Charmap::mappings when a format-12 subtable is selected: exactly the sorted input pairs,
-   PROVIDED no pair is for U+10FFFF (see the finding) and all glyph ids are below the glyph count *)
+   provided all glyph ids are below the glyph count *)
 Theorem charmap_mappings_exact_f12_lemma input o4 gs ng : valid_input input -> from_mappings input = Built o4 (Some gs) ->
-  (forall c g, In (c, g) input -> c < 1114111 /\ g < ng) ->
+  (forall c g, In (c, g) input -> g < ng) ->
   charmap_mappings (records_of o4 (Some gs)) ng = canon input.
 Proof.
   intros HV HB Hlim. destruct (built_f12 _ _ _ HV HB) as (Ha & He & Hw).
@@ -426,5 +399,6 @@ Proof.
     destruct (In_nth_error _ _ Hin) as [i Hi]. destruct (Hn _ _ Hi) as (_ & Hse & _).
     assert (Hl : In (g_end a, g_gid a + (g_end a - g_start a)) (expand gs)).
     { apply in_expand. exists a. split; auto. split; [lia | reflexivity]. }
-    rewrite He in Hl. apply (proj1 (canon_in _ _)) in Hl. apply Hlim in Hl. exact Hl.
+    rewrite He in Hl. apply (proj1 (canon_in _ _)) in Hl. split; [|eapply Hlim; eauto].
+    unfold valid_input in HV. rewrite Forall_forall in HV. destruct (HV _ Hl) as [[_ Hc] _]. exact Hc.
 Qed.
